@@ -65,7 +65,9 @@ CLAIMED.update({
 
 # additions of later rounds (kept apart from the original level texts)
 EXTRA = {
- "C05": " Additionally MC_ReaderBuf (WithErrors) lets the source fail once at any point of any read schedule of 9 documents and checks ErrSurfaces (the read error surfaces in that very call, never swallowed), and trace mode LB follows the windowed reader ReaderBuf through runs with injected source errors (statistic).",
+ "C05": " Additionally MC_ReaderBuf (WithErrors) lets the source fail once at any point of any read schedule of 9 documents and checks ErrSurfaces (the read error surfaces in that very call, never swallowed), and trace mode LB follows the windowed reader ReaderBuf through runs with injected source errors (statistic). Driver chain reads 2500 / 6000 sibling masters that are requested as buffered on a thread with a 256 KiB stack: the depth of the call stack must not grow with the number of siblings (an overflow aborts the process and is reported with that case as witness).",
+ "C04": " Since the repair of the buffered-master collection (fix c844bff) no deviation is listed for C04: a pause of the source inside a buffered master is followed like any other pause.",
+ "C08": " One known finding remains listed (DEV_BUFFERED_EOF_NOCLOSE): with end-of-stream closing disabled and the input ending inside a buffered master, the buffered parse ends cleanly without handing out the started master (what C04 demands for a pause); cases explained by exactly that precondition are reported as KNOWN-FINDING, anything else is a violation.",
  "C06": " The containment clause covers the header of unknown-size children (a header reaching past a known-size ancestor is the oversize error).",
  "C09": " Driver widths writes elements of 2^(7w)-2 .. 2^(7w) bytes with explicit width w (relation WidthExact: honoured exactly or rejected, never widened); the present driver also gives child masters of Full items as Start..End runs, puts size options on End calls (they mean nothing there) and writes one Full item with the unknown-size option (relation FullUnknown: rejected as a size error, or unknown size affected size fields only).",
  "C10": " Driver flush_open calls flush() / into_inner() while known- and unknown-size masters are open and continues with a second document; the monitor also requires (hook) that no master is open after a successful flush().",
